@@ -3,17 +3,36 @@ import Driver.Util
 namespace Driver
 open PygacModel
 
-/-- cmd: c16 <sat/file/K/customkeys(,|_)> ...   (one token per request of a history)
- -> per request "<K source letters: C custom, digit = file whose default is used>@<version file|n>" -/
+/-- cmd: c16 init/<id> <sat/file/K/customkeys(,|_)/rewrite(id|_)> ...   (one token per request of a history)
+
+File ids 0, 1, 2 are three paths with fixed content; ids 3.. are the successive CONTENTS of one further
+path (path 3), `init/<id>` being the content it has when the history starts and `rewrite = id` meaning
+that path 3 is overwritten with content `id` just before this request.  The model is the dynamic one
+(`dynRun`: cache keyed by path, file system changing under it).
+ -> per request "<K source letters: C custom, digit = content id whose default is used>@<version id|n>" -/
 def cmdC16 (args : List String) : IO (List String) := do
-  let reqs : List (Req String × Nat) := args.map (fun a =>
+  let content : Nat → Table String := fun id _ _ => toString id
+  let pathOf (f : Nat) : Nat := if f ≥ 3 then 3 else f
+  let (init3, toks) := match args with
+    | a :: rest => (match a.splitOn "/" with
+        | ["init", i] => (parseNat! i, rest)
+        | _ => (3, args))
+    | [] => (3, [])
+  let w0 : World String :=
+    { fs := fun p => if p = 3 then content init3 else content p,
+      ver := fun p => if p = 3 then some init3 else some p,
+      cache := none }
+  let parsed : List (List (Ev String) × Nat) := toks.map (fun a =>
     match a.splitOn "/" with
-    | [s, f, k, c] => (⟨parseNat! s, parseNat! f, (parseNats c).map (fun i => (i, "C"))⟩, parseNat! k)
-    | _ => (⟨0, 0, []⟩, 0))
-  let fs : Nat → Table String := fun file _ _ => toString file
-  let ver : Nat → Option Nat := fun file => some file
-  let (_, outs) := calRun fs ver none (reqs.map (·.1))
-  let strs := (outs.zip reqs).map (fun (o, (_, k)) =>
+    | [s, f, k, c, rw] =>
+      let r : Req String := ⟨parseNat! s, pathOf (parseNat! f), (parseNats c).map (fun i => (i, "C"))⟩
+      let pre : List (Ev String) := if rw == "_" then [] else [.write 3 (content (parseNat! rw)) (some (parseNat! rw))]
+      (pre ++ [.req r], parseNat! k)
+    | _ => ([.req ⟨0, 0, []⟩], 0))
+  let evs := (parsed.map (·.1)).flatten
+  let (_, outs) := dynRun w0 evs
+  let results := outs.filterMap id
+  let strs := (results.zip (parsed.map (·.2))).map (fun (o, k) =>
     String.join ((List.range k).map o.value) ++ "@" ++ (match o.version with | some v => toString v | none => "n"))
   return [" ".intercalate strs]
 end Driver
